@@ -267,6 +267,8 @@ def listing(wd):
     for root, dirs, files in os.walk(wd):
         for f in files:
             out.append(os.path.relpath(os.path.join(root, f), wd))
+        for d in dirs:                                       # folders count: a rejected model leaves nothing behind
+            out.append(os.path.relpath(os.path.join(root, d), wd) + "/")
     return sorted(out)
 
 
@@ -287,8 +289,8 @@ def observe(src, wd):
         obs.update(cls="ESCAPED:" + type(ex).__name__, exc=ex, tb=traceback.format_exc()[-600:])
     obs["executed"] = list(LOG)
     obs["new_files"] = [f for f in listing(wd) if f not in before]
-    for f in obs["new_files"]:
-        os.remove(os.path.join(wd, f))
+    for f in sorted(obs["new_files"], key=len, reverse=True):
+        (os.rmdir if f.endswith("/") else os.remove)(os.path.join(wd, f))
     return obs
 
 
@@ -412,6 +414,10 @@ def main():
             r = inject(rnd, base, lib, fault)
             if r is None:
                 continue
+            if rnd.random() < 0.5:      # outputs go to a folder that does not exist (yet): rejecting the model must not create it
+                sub = rnd.choice(["results/", "results/run1/", "out/a/b/"])
+                for x in r[0]:
+                    x[2] = [(k, sub + v if k == "OutFileName" and "/" not in v else v) for k, v in x[2]]
             jobs.append((render_nodes([(x[0], x[1], x[2]) for x in r[0]], rnd), r[1], fault, {"csv": csvtxt}))
     if prop == "C13":
         jobs += c13_jobs(rnd, [j for j in jobs if j[1] is None], n)
@@ -480,9 +486,9 @@ def main():
             pr = subprocess.run([sys.executable, "-c", "import sys; sys.argv=['mpilot','eems-csv',%r]; from mpilot.cli.mpilot import main; main()" % os.path.join(wd, "m.mpt")],
                                 cwd=wd, env=env, stdout=subprocess.PIPE, stderr=subprocess.PIPE, universal_newlines=True)
             dist["cli_runs"] += 1
-            for f in listing(wd):
+            for f in sorted(listing(wd), key=len, reverse=True):
                 if f not in ("d.csv", "data.csv", "m.mpt"):
-                    os.remove(os.path.join(wd, f))
+                    (os.rmdir if f.endswith("/") else os.remove)(os.path.join(wd, f))
             replay = {"source": src, "csv": extra.get("csv", base_csv), "cli": "mpilot eems-csv m.mpt"}
             if obs["cls"] and obs["cls"] != "SyntaxError" and not obs["cls"].startswith("ESCAPED"):
                 if pr.returncode == 0:
